@@ -55,6 +55,26 @@ pub fn c02(out: &mut Vec<String>, rng: &mut Rng, tier: &str) {
             for (n, k) in [(4usize, 2usize), (10, 3), (1000, 2), (1000, 998), (100_000, 50_000)] {
                 out.push(format!("C02 {}", nk_line(conf_of(kind, l), n, k)));
             }
+            // huge populations with a handful of successes / failures: the roots are within rounding of 0 and 1
+            // (for a one-sided level below 1/2 the critical value is negative and the *other* root is reported)
+            for e in [50u32, 53, 56, 60] {
+                for j in [2usize, 3, 5] {
+                    out.push(format!("C02 {}", nk_line(conf_of(kind, l), 1usize << e, j)));
+                    out.push(format!("C02 {}", nk_line(conf_of(kind, l), 1usize << e, (1usize << e) - j)));
+                }
+            }
+        }
+    }
+    // one-sided levels below 1/2 (negative critical value) at huge populations with few successes / failures
+    for l in [0.4, 0.1, 1e-3, 1e-9, 1e-40] {
+        for kind in 1..3u64 {
+            for e in [45u32, 50, 52, 53, 54, 57, 62] {
+                for j in [2usize, 3, 4, 7] {
+                    let n = (1usize << e) + (rng.below(5) as usize);
+                    out.push(format!("C02 {}", nk_line(conf_of(kind, l), n, j)));
+                    out.push(format!("C02 {}", nk_line(conf_of(kind, l), n, n - j)));
+                }
+            }
         }
     }
     // front-ends: boolean data, predicate over data, running Stats
